@@ -247,7 +247,8 @@ class Driver(object):
            'setattr', 'retag_align', 'set_tag', 'empty_clone',
            'copy_properties', 'pickle', 'get_property_arrays',
            'output_arrays', 'ensure_properties', 'copy_over', 'set_to_zero',
-           'remove_all', 'resize_shrink', 'add_property_data']
+           'remove_all', 'resize_shrink', 'add_property_data',
+           'redefault_property']
 
     def __init__(self, rng, uid0):
         self.rng = rng
@@ -537,6 +538,28 @@ class Driver(object):
         m.meta[p] = dict(type=typ, stride=stride, default=default)
         for r in m.rows.values():
             r[p] = np.full(stride, default, dtype=NPT[typ])
+        return None
+
+    def op_redefault_property(self, pa, m, n, rng, log):
+        """add_property on a name that exists, with a new default and no
+        data: values stay, particles added later carry the new default
+        (zero included)."""
+        cands = [p for p in m.meta if re.match(r'^(p\d_|q\d|e\d)', p)]
+        if not cands:
+            return None
+        p = str(rng.choice(cands))
+        mt = m.meta[p]
+        default = (0 if rng.random() < 0.5 else
+                   val(rng, mt['type'], ()).item())
+        if rng.random() < 0.3:
+            default = float(default) if mt['type'] == 'double' else default
+        log.append(('add_property on existing name', p, 'default', default,
+                    'was', mt['default']))
+        kw = dict(type=mt['type'], default=default)
+        if mt['stride'] != 1 or rng.random() < 0.5:
+            kw['stride'] = mt['stride']
+        pa.add_property(p, **kw)
+        mt['default'] = default
         return None
 
     def op_add_constant(self, pa, m, n, rng, log):
